@@ -31,32 +31,54 @@ def _blocks_and_strips(sig, arr, g, ul, values):
     mask = np.ma.getmaskarray(arr) | np.isnan(data)
     require(data.shape == (nr * ul + 1, nc * ul + 1), f"{sig}:image-size", f"{data.shape} for grid {nr}x{nc}, unit {ul}")
 
-    def is_wall(sl):
-        if values is None:
-            return bool(np.all(~mask[sl]) and np.all(data[sl] == -1))
-        return bool(np.all(mask[sl]))
+    def look(sl):
+        """how a region is drawn: 'masked' (nothing drawn there) or the set of values it shows"""
+        if bool(np.all(mask[sl])):
+            return ("masked",)
+        if bool(np.any(mask[sl])):
+            return ("mixed",)
+        return tuple(sorted({round(float(x), 9) for x in np.unique(data[sl])}))
 
-    def is_passage(sl):
-        if values is None:
-            return bool(np.all(~mask[sl]) and np.all(data[sl] != -1))
-        return bool(np.all(~mask[sl]))
-
+    cell_looks = {}
     for i in range(nr):
         for j in range(nc):
             blk = (slice(i * ul + 1, (i + 1) * ul), slice(j * ul + 1, (j + 1) * ul))
-            want = 1.0 if values is None else float(values[i][j])
-            require(bool(np.all(~mask[blk]) and np.allclose(data[blk], want, rtol=0, atol=1e-12)), f"{sig}:cell-block",
-                    f"cell ({i},{j}): block is not uniformly {want}: {np.unique(data[blk])[:4]}")
+            lk = look(blk)
+            require(len(lk) == 1 and lk != ("masked",) and lk != ("mixed",), f"{sig}:cell-block", f"cell ({i},{j}): block is not drawn uniformly: {lk[:4]}")
+            if values is not None:
+                require(abs(lk[0] - float(values[i][j])) < 1e-9, f"{sig}:cell-block", f"cell ({i},{j}): block shows {lk[0]}, supplied value {values[i][j]}")
+            cell_looks[(i, j)] = lk
+    if values is None:
+        require(len(set(cell_looks.values())) == 1, f"{sig}:cell-block", f"cells are drawn with different values: {sorted(set(cell_looks.values()))[:4]}")
+    # one strip per lattice edge: all wall strips look alike, and no passage strip looks like a wall
+    walls, passages = {}, {}
     for (i, j), (k, l) in M.lattice_edges(nr, nc):
         if k == i + 1:
             sl = (slice((i + 1) * ul, (i + 1) * ul + 1), slice(j * ul + 1, (j + 1) * ul))
         else:
             sl = (slice(i * ul + 1, (i + 1) * ul), slice((j + 1) * ul, (j + 1) * ul + 1))
-        connected = (k, l) in a[(i, j)]
-        if connected:
-            require(is_passage(sl), f"{sig}:connected-drawn-as-wall", f"edge {(i, j)}-{(k, l)} is a connection but its strip is {data[sl].ravel()[:4]} mask={mask[sl].ravel()[:4]}; bits={g['cl']}")
-        else:
-            require(is_wall(sl), f"{sig}:wall-drawn-as-passage", f"edge {(i, j)}-{(k, l)} is a wall but its strip is {data[sl].ravel()[:4]} mask={mask[sl].ravel()[:4]}; bits={g['cl']}")
+        (passages if (k, l) in a[(i, j)] else walls)[((i, j), (k, l))] = look(sl)
+    # (the outer frame is not used as a reference: the statement speaks of cell blocks and edge strips only)
+    wall_looks = set(walls.values())
+    require(len(wall_looks) <= 1, f"{sig}:wall-drawn-as-passage", f"wall strips are not drawn alike: {sorted(wall_looks)[:4]}; bits={g['cl']}")
+    if wall_looks:
+        wl = next(iter(wall_looks))
+        require(wl != ("mixed",), f"{sig}:wall-drawn-as-passage", "a wall strip is partly drawn, partly not")
+        for e, lk in passages.items():
+            require(lk != wl and lk != ("mixed",), f"{sig}:connected-drawn-as-wall", f"edge {e[0]}-{e[1]} is a connection but its strip is drawn like a wall ({lk}); bits={g['cl']}")
+        if values is None:
+            cl_ = next(iter(cell_looks.values()))
+            require(cl_ != wl, f"{sig}:cell-block", f"cells are drawn like walls ({cl_})")
+    # which of the two looks is 'wall': the closing border below the last row and right of the last column is never a passage. It is
+    # used as the reference only if it is drawn uniformly (a library may draw its border any way it likes - then there is no anchor)
+    H_, W_ = data.shape
+    border = {look((slice(H_ - 1, H_), slice(j * ul + 1, (j + 1) * ul))) for j in range(nc)} | {look((slice(i * ul + 1, (i + 1) * ul), slice(W_ - 1, W_))) for i in range(nr)}
+    if len(border) == 1 and ("mixed",) not in border:
+        bl = next(iter(border))
+        for e, lk in passages.items():
+            require(lk != bl, f"{sig}:connected-drawn-as-wall", f"edge {e[0]}-{e[1]} is a connection but its strip is drawn like the closed outer border ({lk}); bits={g['cl']}")
+        for e, lk in walls.items():
+            require(lk == bl, f"{sig}:wall-drawn-as-passage", f"edge {e[0]}-{e[1]} is a wall but its strip ({lk}) is not drawn like the closed outer border ({bl}); bits={g['cl']}")
 
 
 def _xy(path, ul):
